@@ -28,7 +28,7 @@ func init() {
 			{Name: fmt.Sprintf("sub-hist-D%d", d), Mode: "hist", Reset: kit.ResetGlobals, Body: func() { hist(d) },
 				NeedCounters: []string{"delivered", "filtered-at-arrival", "purged-by-unsubscribe", "empty-topic-matches", "ctx-independent"}},
 			{Name: fmt.Sprintf("sub-late-context-short-queue-hist-D%d", d+1), Mode: "hist", Reset: kit.ResetGlobals, Body: func() { histLate(d + 1) },
-				NeedCounters: []string{"context-opened-mid-history", "short-queue-overflowed", "delivered"}},
+				NeedCounters: []string{"context-opened-mid-history", "short-queue-overflowed", "delivered", "zero-length-queue-handed-over", "zero-length-queue-dropped"}},
 			{Name: "sub-match-enum", Mode: "enum", Reset: kit.ResetGlobals, Body: matchEnum, NeedCounters: []string{"match", "nomatch"}},
 			{Name: "sub-overflow", Mode: "enum", Reset: kit.ResetGlobals, Body: overflow},
 			{Name: "sub-sched-unsub-recv", Mode: "sched", Bound: b, Reset: kit.ResetGlobals, Body: schedUnsub},
@@ -42,7 +42,7 @@ func init() {
 		}{{"pub", pub.NewSocket}, {"xpub", xpub.NewSocket}} {
 			k := k
 			out = append(out, &vexplore.Scenario{Name: fmt.Sprintf("%s-subscribers-hist-D%d", k.n, d+2), Mode: "hist", Reset: kit.ResetGlobals, Body: func() { pubHist(k.c, d+2) },
-				NeedCounters: []string{"pub-delivered", "pub-joined-later", "pub-left", "pub-slow-subscriber"}})
+				NeedCounters: []string{"pub-delivered", "pub-joined-later", "pub-left", "pub-slow-subscriber", "pub-write-qlen-set-with-subscribers-connected"}})
 			out = append(out, &vexplore.Scenario{Name: k.n + "-slow-subscriber-and-the-two-queue-lengths", Mode: "enum", Reset: kit.ResetGlobals, Body: func() { c08.QueueLengths(k.n, k.c, nil, 0) }, NeedCounters: []string{"slow-peer-given-all-queued"}})
 			out = append(out, &vexplore.Scenario{Name: k.n + "-fanout", Mode: "sched", Bound: b, Reset: kit.ResetGlobals, Body: func() { pubFanout(k.c) }})
 		}
@@ -185,6 +185,8 @@ type mctx struct {
 	recv  *kit.Call
 	qlen  int  // receive queue length when set short (0 = default, never overflows here)
 	lossy bool // the queue has overflowed: what is left is some in-order selection of queue
+	zero    bool // receive queue length 0
+	maxLost int // number of overflows so far not yet accounted for: each cost at most one message
 }
 
 func (m *mctx) setOpt(n string, v interface{}) error {
@@ -282,9 +284,21 @@ func (w *world) publish(pipe int, prefix string) {
 	body := fmt.Sprintf("%s#%d", prefix, w.seq)
 	any := false
 	for _, m := range w.ctxs {
+		if m.matches(body) && m.zero {
+			// no queue at all: the message is handed to a Recv that is waiting, or lost
+			any = true
+			if m.recv != nil && !m.recv.Done() && len(m.queue) == 0 {
+				m.queue = append(m.queue, body)
+				kit.Count("zero-length-queue-handed-over")
+			} else {
+				kit.Count("zero-length-queue-dropped")
+			}
+			continue
+		}
 		if m.matches(body) {
 			if m.qlen > 0 && len(m.queue) >= m.qlen {
 				m.lossy = true // something is dropped from this context's queue - and from no other
+				m.maxLost++
 				kit.Count("short-queue-overflowed")
 			}
 			m.queue = append(m.queue, body)
@@ -383,11 +397,17 @@ func (w *world) events() []kit.Event {
 				kit.Failf("open-context", "OpenContext: %s", kit.ErrName(err))
 			}
 			m := &mctx{name: "ctx1", c: c, s: w.sock}
-			if w.short > 0 {
+			if w.short == 1 {
 				if err := c.SetOption(mangos.OptionReadQLen, w.short); err != nil {
 					kit.Failf("qlen-error", "ctx.SetOption(ReadQLen,%d): %s", w.short, kit.ErrName(err))
 				}
 				m.qlen = w.short
+			}
+			if w.short >= 2 {
+				// the socket has the short queue, the new context the default length
+				if err := c.SetOption(mangos.OptionReadQLen, 128); err != nil {
+					kit.Failf("qlen-error", "ctx.SetOption(ReadQLen,128): %s", kit.ErrName(err))
+				}
 			}
 			w.ctxs = append(w.ctxs, m)
 			kit.Count("context-opened-mid-history")
@@ -417,8 +437,11 @@ func (w *world) settle() {
 			}
 			continue
 		}
+		if !c.Done() && m.lossy && len(m.queue) <= m.maxLost {
+			continue // everything the model still holds may be what the overflows cost
+		}
 		if !c.Done() {
-			kit.Failf("recv-blocked", "%s: Recv blocks although %d matching message(s) are queued (first %q, subscriptions %q)", m.name, len(m.queue), m.queue[0], m.subs)
+			kit.Failf("recv-blocked", "%s: Recv blocks although %d matching message(s) are queued (first %q, subscriptions %q) and at most %d were lost to overflows", m.name, len(m.queue), m.queue[0], m.subs, m.maxLost)
 		}
 		if m.lossy && c.Err == nil {
 			// after an overflow any in-order selection may be left
@@ -432,6 +455,10 @@ func (w *world) settle() {
 			if idx < 0 {
 				kit.Failf("recv-wrong", "%s: Recv returned %q, which is not among the matching messages still possible %q", m.name, c.Val, m.queue)
 			}
+			if idx > m.maxLost {
+				kit.Failf("lost-more-than-overflowed", "%s: Recv returned %q, skipping %d queued matching messages (%q); the queue overflowed only %d time(s) since", m.name, c.Val, idx, m.queue[:idx], m.maxLost)
+			}
+			m.maxLost -= idx
 			m.queue = m.queue[idx+1:]
 			m.recv = nil
 			kit.Count("delivered")
@@ -497,7 +524,16 @@ func histOpt(depth int, contract bool) {
 func histLate(depth int) {
 	w := setup(1)
 	w.late = true
-	w.short = kit.ChooseFree(2) // 0 = default length, 1 = one message
+	// 0 = default length, 1 = one message for the new context, 2 = one message for the socket (the
+	// new context has the default length), 3 = no queue at all for the socket
+	w.short = kit.ChooseFree(4)
+	if w.short >= 2 {
+		if err := w.sock.SetOption(mangos.OptionReadQLen, 3-w.short); err != nil {
+			kit.Failf("qlen-error", "SetOption(ReadQLen,%d): %s", 3-w.short, kit.ErrName(err))
+		}
+		w.ctxs[0].qlen = 3 - w.short
+		w.ctxs[0].zero = w.short == 3
+	}
 	w.topics = []string{"", "a"}
 	w.pubs = []pubEv{{0, "a"}, {1, "b"}}
 	if err := w.ctxs[0].setOpt(mangos.OptionSubscribe, "a"); err != nil {
@@ -776,6 +812,7 @@ func pubHist(c func() (mangos.Socket, error), depth int) {
 	}
 	var subs []*sub
 	nsent := 0
+	resized := false
 	check := func() {
 		for i, u := range subs {
 			var got []string
@@ -832,6 +869,22 @@ func pubHist(c func() (mangos.Socket, error), depth int) {
 			if u.slow {
 				evs = append(evs, kit.Event{Name: fmt.Sprintf("take:%d", i), Run: func() { u.p.Take(1); kit.Count("pub-slow-subscriber") }})
 			}
+		}
+		if !resized {
+			// the send queue length is set again while subscribers are connected (their senders idle
+			// or busy): nobody is disconnected, nobody stops being served
+			evs = append(evs, kit.Event{Name: "set-write-qlen", Run: func() {
+				resized = true
+				if err := s.SetOption(mangos.OptionWriteQLen, 4-q*3); err != nil {
+					kit.Failf("setup", "SetOption(WriteQLen) on the connected socket: %s", kit.ErrName(err))
+				}
+				for _, u := range subs {
+					if u.p.Alive() {
+						kit.Count("pub-write-qlen-set-with-subscribers-connected")
+						break
+					}
+				}
+			}})
 		}
 		evs = append(evs, kit.Event{Name: "publish", Run: func() {
 			nsent++
